@@ -104,8 +104,15 @@ def check_psutil_kill(parents: List[int], vanished: int, root_gone: bool) -> boo
             if self.pid == ROOT + vanished:
                 raise _NoSuch()
 
+    def wait_procs(procs, timeout=None, callback=None):
+        # psutil.wait_procs reaps what it waits for (os.waitpid): recorded, the worker itself must be
+        # reaped by process.join() only, or its exit status is lost to multiprocessing (C20)
+        for q in procs:
+            log.add("psutil-wait", q.pid)
+        return list(procs), []
+
     saved = lu.psutil
-    lu.psutil = NS(Process=P, NoSuchProcess=_NoSuch)
+    lu.psutil = NS(Process=P, NoSuchProcess=_NoSuch, wait_procs=wait_procs)
     proc = FakeProcess(log, ROOT)
     try:
         lu.kill_process_tree(proc)
@@ -113,4 +120,4 @@ def check_psutil_kill(parents: List[int], vanished: int, root_gone: bool) -> boo
         lu.psutil = saved
     if root_gone:
         return log.count("oskill") == 0
-    return _check_order(log, kids) and proc.joined == 1
+    return _check_order(log, kids) and proc.joined == 1 and log.count("psutil-wait", ROOT) == 0
